@@ -394,16 +394,18 @@ def coq_tstream_from_cfg():
     return '(tstream_of_dst d)'
 
 
-def model_and_decode(cfg, s, hists, impl_packets, scratch, name, tstream_term=None, timeout=900):
+def model_and_decode(cfg, s, hists, impl_packets, scratch, name, tstream_term=None, ops_term=None, timeout=900):
     """One coqc run: model logs for all histories + Coq reader applied to the real packets.
     impl_packets: list (per history) of list of byte lists.  Returns (model_logs, decoded, raw)."""
     dterm = lg.coq_dst(cfg, s)
     body = ['From Coq Require Import List ZArith String Bool.', 'Import ListNotations.',
             'From BT.Base Require Import Bits.', 'From BT.Layout Require Import Model.',
-            'From BT.Tracer Require Import Model Decode.',
+            'From BT.Tracer Require Import Model Decode Encode.',
             'Local Open Scope nat_scope.',
             'Definition d : dstm := %s.' % dterm,
             'Definition ts : tstream := %s.' % (tstream_term or coq_tstream_from_cfg()),
+            'Definition rops : list (option op) := %s.' % (ops_term or '(stream_ops d)'),
+            'Eval vm_compute in (ops_agree d rops, tsdl_agree d ts).',
             'Definition hists : list (nat * list val * list ans * list call) := [']
     rows = []
     for h in hists:
@@ -424,6 +426,8 @@ def model_and_decode(cfg, s, hists, impl_packets, scratch, name, tstream_term=No
     ms = re.findall(r'=\s*(\[.*?\])\s*:\s*list \(list Z\)', out, re.S)
     if len(ms) != 2:
         return None, None, out
+    mb = re.search(r'=\s*\((true|false),\s*(true|false)\)', out)
+    model_and_decode.last_agree = (mb.group(1) == 'true', mb.group(2) == 'true') if mb else (None, None)
 
     def parse(txt):
         txt = txt.replace('%Z', '').replace('\n', ' ').replace('(', '').replace(')', '')
@@ -455,3 +459,152 @@ def replay_clock(events, oracle, clock_bits):
                 clk += a[3]
                 vals.append(clk & ((1 << clock_bits) - 1))
     return vals
+
+
+# ------------------------------------------------------------------ real op trees (cgen) -> Coq terms
+class OpShapeError(Exception):
+    pass
+
+
+import threading
+_CAPTURE_LOCK = threading.Lock()
+
+
+def capture_ds_ops(bcfg):
+    """Run the REAL cgen.gen_src and capture the _DsOps mapping it hands to barectf.c.j2."""
+    import barectf.template as btt
+    from bt import bcgen
+    captured = {}
+    orig = btt._Template.render
+
+    def wrapped(self, **kw):
+        if 'ds_ops' in kw:
+            captured['ds_ops'] = kw['ds_ops']
+        return orig(self, **kw)
+    with bt.GEN_LOCK:
+        orig = btt._Template.render
+        cg = bcgen._CodeGen(bcfg)
+        btt._Template.render = wrapped
+        try:
+            cg.gen_src('barectf.h', 'barectf-bitfield.h')
+        finally:
+            btt._Template.render = orig
+    return cg, captured['ds_ops']
+
+
+def coq_on(x):
+    return 'None' if x is None else '(Some %d)' % x
+
+
+def norm_seq(cg, ops):
+    """[_AlignOp?, op]* -> list of Coq op terms; fail closed on any other shape."""
+    from bt import bc
+    out, i = [], 0
+    while i < len(ops):
+        al = 1
+        op = ops[i]
+        if type(op).__name__ == '_AlignOp':
+            al = op.value
+            if i + 1 >= len(ops) or ops[i + 1].ft is not op.ft:
+                raise OpShapeError('align operation not followed by the operation it aligns')
+            i += 1
+            op = ops[i]
+        out.append(norm_op(cg, op, al))
+        i += 1
+    return out
+
+
+def norm_op(cg, op, al):
+    from bt import bc
+    tn = type(op).__name__
+    ft = op.ft
+    if tn == '_WriteOp':
+        if isinstance(ft, bc._BitArrayFieldType):
+            if al != (ft.alignment if ft.alignment > 1 else 1):
+                raise OpShapeError('align value %d differs from field type alignment %d' % (al, ft.alignment))
+            skip = op._templates.serialize is cg._serialize_write_skip_save_statements_templ
+            return '(OBits %d %s %d %s)' % (al, 'KSkip' if skip else 'KWrite', ft.size, coq_on(op.offset_in_byte))
+        if type(ft) is bc.StringFieldType:
+            return '(OStr %d)' % al
+        if type(ft) is bc.StaticArrayFieldType and op._templates.serialize is cg._serialize_write_uuid_statements_templ:
+            return '(OUuid %d)' % al
+        raise OpShapeError('unexpected write operation for %r' % type(ft).__name__)
+    if tn == '_CompoundOp':
+        if type(ft) is bc.StructureFieldType:
+            sub = list(op.subops)
+            sal = 1
+            if sub and type(sub[0]).__name__ == '_AlignOp' and sub[0].ft is ft:
+                sal = sub[0].value
+                sub = sub[1:]
+            if al != 1:
+                raise OpShapeError('structure preceded by an external align operation')
+            return '(OBlock %d [%s])' % (sal, '; '.join(norm_seq(cg, sub)))
+        if isinstance(ft, bc._ArrayFieldType):
+            body = norm_seq(cg, list(op.subops))
+            if len(body) != 1:
+                raise OpShapeError('array body is not a single (aligned) operation')
+            ln = ft.length if type(ft) is bc.StaticArrayFieldType else None
+            return '(OArr %d %s %s)' % (al, coq_on(ln), body[0])
+    raise OpShapeError('unknown operation class %s' % tn)
+
+
+def real_ops_term(bcfg, stream_name):
+    """Coq term: list (option op) in the order of Encode.stream_ops."""
+    cg, ds_ops = capture_ds_ops(bcfg)
+    dst = [d for d in ds_ops if d.name == stream_name][0]
+    o = ds_ops[dst]
+
+    def opt(x):
+        return 'None' if x is None else '(Some %s)' % norm_op(cg, x, 1)
+    items = [opt(o.pkt_header_op), opt(o.pkt_ctx_op), opt(o.er_header_op), opt(o.er_common_ctx_op)]
+    for ert in sorted(dst.event_record_types, key=lambda e: e.id):
+        eo = o.er_ops[ert]
+        items += [opt(eo.spec_ctx_op), opt(eo.payload_op)]
+    return '[%s]' % '; '.join(items)
+
+
+# ------------------------------------------------------------------ real metadata (TSDL) -> Coq terms
+def tsdl_type_term(t, tsdl):
+    if isinstance(t, tsdl.Enum):
+        t = t.container
+    if isinstance(t, tsdl.Integer):
+        a = t.attrs
+        return '(TInt %s %d %d)' % ('true' if str(a.get('signed', 'false')) in ('true', '1') else 'false', int(a['size']), int(a.get('align', 1)))
+    if isinstance(t, tsdl.FloatingPoint):
+        a = t.attrs
+        return '(TFloat %d %d)' % (int(a['exp_dig']) + int(a['mant_dig']), int(a.get('align', 1)))
+    if isinstance(t, tsdl.String):
+        return 'TStr'
+    if isinstance(t, tsdl.Array):
+        return '(TArr %d %s)' % (t.length, tsdl_type_term(t.elem, tsdl))
+    if isinstance(t, tsdl.Sequence):
+        return '(TSeq %s %s)' % (lg.coq_str(t.length), tsdl_type_term(t.elem, tsdl))
+    raise ValueError('unsupported TSDL type %r' % (t,))
+
+
+def tsdl_struct_term(t, tsdl):
+    if t is None:
+        return 'None'
+    if not isinstance(t, tsdl.Struct):
+        raise ValueError('root type is not a struct')
+    return '(mk_ts %d [%s])' % (int(t.align or 1), '; '.join('(%s, %s)' % (lg.coq_str(f.name), tsdl_type_term(f.type, tsdl)) for f in t.fields))
+
+
+def real_tstream_term(metadata_text, sid, has_stream_id):
+    """Coq tstream term built ONLY from the real metadata text (CTF reader's view)."""
+    import tsdl
+    doc = tsdl.parse(metadata_text)
+    tr = doc.block('trace')
+    bo = str(tr.attrs['byte_order']).upper()
+    ph = tr.types.get('packet.header')
+    streams = doc.all('stream')
+    st = [b for b in streams if int(b.attrs.get('id', 0)) == sid] if has_stream_id else streams
+    st = st[0]
+    evs = [b for b in doc.all('event') if (int(b.attrs.get('stream_id', 0)) == sid if has_stream_id else True)]
+
+    def o(t):
+        return 'None' if t is None else '(Some %s)' % tsdl_struct_term(t, tsdl)
+    ev_terms = ['(mk_tev %d %s %s)' % (int(e.attrs['id']), o(e.types.get('context')), o(e.types.get('fields'))) for e in evs]
+    return '(mk_tst %s %s %s %s %s [%s])' % (bo, o(ph), tsdl_struct_term(st.types['packet.context'], tsdl),
+                                            o(st.types.get('event.header')), o(st.types.get('event.context')),
+                                            '; '.join(ev_terms))
